@@ -19,6 +19,7 @@ from agilerl.typing import (
     ObservationType,
     TorchObsType,
 )
+from agilerl.utils import verif_hooks
 from agilerl.utils.algo_utils import make_safe_deepcopies, obs_channels_to_first
 from agilerl.wrappers.make_evolvable import MakeEvolvable
 
@@ -346,6 +347,16 @@ class RainbowDQN(RLAlgorithm):
             proj_dist.view(-1).index_add_(
                 0, (u + offset).view(-1), (target_q_dist * (b - L.float())).view(-1)
             )
+
+        verif_hooks.record(
+            "rainbow.proj",
+            proj_dist=proj_dist,
+            target_q_dist=target_q_dist,
+            rewards=rewards,
+            dones=dones,
+            gamma=gamma,
+            next_actions=next_actions,
+        )
 
         # Calculate the current obs
         log_q_dist = self.actor(states, q=False, log=True)
